@@ -263,6 +263,7 @@ WebSocketMsg WebSocket::receive()
 {
 	WebSocketMsg msg;
 	bool haveMsg = false;
+	bool inMessage = false; // a fragmented message has started and its final frame has not arrived yet
 	while (!haveMsg)
 	{
 		ByteArray buffer;
@@ -324,6 +325,7 @@ WebSocketMsg WebSocket::receive()
 		case 1: // text
 		case 2: // binary
 			msg.append(buffer);
+			inMessage = !fin;
 			break;
 		case 8: // connection close
 		{
@@ -345,7 +347,7 @@ WebSocketMsg WebSocket::receive()
 			break;
 		}
 
-		if (fin)
+		if (fin && !(inMessage && opcode >= 8)) // control frames may come between the fragments of a message
 			haveMsg = true;
 	}
 
